@@ -99,8 +99,9 @@ def build(op, seed, variant=0):
     if op == "outer_many":
         return C(op, teneva.outer_many, [[Y, mk_tt(rng), Y2]])
     if op == "copy":
-        arg = [Y, dense_of(Y), 3.5, None][v % 4]
-        return C(op, teneva.copy, [arg], alias_ok=(v % 4 >= 2))
+        # TT-tensor, dense array, number, None, and the arrays the docs file under "numpy array": 0-d, 1-d, a squeezed 1x1x1 core
+        arg = [Y, dense_of(Y), 3.5, None, np.array(float(rng.normal())), rng.normal(size=3), np.squeeze(rng.normal(size=(1, 1, 1)))][v % 7]
+        return C(op, teneva.copy, [arg], alias_ok=(v % 7 in (2, 3)))
     if op == "interface":
         P = [list(rng.uniform(0.1, 1, size=k)) for k in n]
         return C(op, teneva.interface, [Y], dict(P=P if v % 2 else None, i=list(map(int, I[0])) if v % 4 >= 2 else None,
@@ -150,7 +151,7 @@ def build(op, seed, variant=0):
         It = cover_idx(rng, n, 20)
         yt = rng.normal(size=len(It))
         if op == "als":
-            kw = dict(nswp=2, e=None, info={}, lamb=0.01)
+            kw = dict(nswp=2, e=None, info={}, lamb=[0.01, 0.3, 0.01, 2.0][v % 4])     # (the regularisation varies between neighbour variants)
             if v % 4 == 1:
                 kw["w"] = rng.uniform(0.5, 2, size=len(It))
             if v % 4 == 2 and d >= 3:
@@ -191,9 +192,9 @@ def build(op, seed, variant=0):
                 X = rng.uniform(-1, 1, size=(80, dd))
                 yv = np.cos(X.sum(axis=1))
                 return C(op, teneva.als_func, [X, yv, mk_tt(rng, [nn] * dd, 2)], dict(a=-1., b=1., nswp=2, e=None, info={}, lamb=None), mutable={"info"})
-            return C(op, teneva.als_func, [X, yv, mk_tt(rng, [nn] * dd, 2)], dict(a=-1., b=1., nswp=2, e=None, info={}, lamb=0.01), mutable={"info"})
+            return C(op, teneva.als_func, [X, yv, mk_tt(rng, [nn] * dd, 2)], dict(a=-1., b=1., nswp=2, e=None, info={}, lamb=[0.01, 0.3, 2.0][v % 3]), mutable={"info"})
         if op == "anova_func":
-            return C(op, teneva.anova_func, [X, yv, nn], dict(a=-1., b=1., lamb=1e-5, e=[1e-8, None][v % 2]))
+            return C(op, teneva.anova_func, [X, yv, nn], dict(a=-1., b=1., lamb=[1e-5, 1e-2, 1e-5, 0.5][v % 4], e=[1e-8, None][v % 2]))
         if op == "ANOVA_func":
             return C(op, lambda *a, **k: teneva.ANOVA_func(*a, **k).cores(), [X, yv, nn])
         A = mk_tt(rng, [nn] * dd, 2)
